@@ -252,6 +252,8 @@ impl<
             .em
             .try_cleanup(now)?
             .map_or(Vec::with_capacity(0), |m| {
+                #[cfg(transparencies_stretto_verif)]
+                crate::verif::sched::point("cleanup:after_buckets_taken");
                 m.iter()
                     // Sanity check. Verify that the store agrees that this key is expired.
                     .filter_map(|(k, v)| {
@@ -293,6 +295,8 @@ impl<
 
         let mut removed_items = Vec::new();
         if let Some(items) = items {
+            #[cfg(transparencies_stretto_verif)]
+            crate::verif::sched::point("cleanup:after_buckets_taken");
             for (k, v) in items.iter() {
                 let expiration = self.expiration(k);
                 if let Some(t) = expiration {
